@@ -7,3 +7,8 @@ def build_db():
     from . import render
     render.register(db)
     return db
+
+
+def extra_lemmas(ctx):
+    """lemma schemas contributed by contract modules (beyond the escape-table ones of hv.ground)"""
+    return []
